@@ -1,0 +1,76 @@
+//go:build verif
+
+package main
+
+// Verification driver (built only with -tags verif): feeds byte streams to
+// Terminal.ReadLine and records what the console would hand to the engine.
+// Input file (VERIF_CONSOLE_IN): one hex-encoded byte stream per line.
+// Output file (VERIF_CONSOLE_OUT): per input line, "begin", then one
+// "submit <hex stmt>..." line per successful ReadLine, then "end".
+
+import (
+	"bufio"
+	"bytes"
+	"encoding/hex"
+	"fmt"
+	"io"
+	"os"
+	"strings"
+	"testing"
+)
+
+type verifRW struct {
+	io.Reader
+	io.Writer
+}
+
+func TestVerifConsoleDriver(t *testing.T) {
+	in, out := os.Getenv("VERIF_CONSOLE_IN"), os.Getenv("VERIF_CONSOLE_OUT")
+	if in == "" || out == "" {
+		t.Skip("no driver input")
+	}
+	fin, err := os.Open(in)
+	if err != nil {
+		t.Fatal(err)
+	}
+	defer fin.Close()
+	fout, err := os.Create(out)
+	if err != nil {
+		t.Fatal(err)
+	}
+	defer fout.Close()
+	w := bufio.NewWriter(fout)
+	defer w.Flush()
+	sc := bufio.NewScanner(fin)
+	sc.Buffer(make([]byte, 1<<20), 1<<26)
+	for sc.Scan() {
+		raw, err := hex.DecodeString(strings.TrimSpace(sc.Text()))
+		if err != nil {
+			t.Fatal(err)
+		}
+		fmt.Fprintln(w, "begin")
+		func() {
+			defer func() {
+				if r := recover(); r != nil {
+					fmt.Fprintln(w, "panic")
+				}
+			}()
+			term := NewTerminal(verifRW{bytes.NewReader(raw), io.Discard}, "")
+			for {
+				lines, err := term.ReadLine()
+				if err != nil {
+					break
+				}
+				parts := make([]string, len(lines))
+				for i, l := range lines {
+					parts[i] = hex.EncodeToString([]byte(l))
+					if parts[i] == "" {
+						parts[i] = "-"
+					}
+				}
+				fmt.Fprintln(w, strings.TrimSpace("submit "+strings.Join(parts, " ")))
+			}
+		}()
+		fmt.Fprintln(w, "end")
+	}
+}
